@@ -49,6 +49,7 @@ class Built:
         self.keep = []
         self.objs = []
         self.classes = []
+        self.exposed_by_decorator = []   # (node, method name, aliases, function): marked through cherrypy.expose
         self._build()
 
     # -- probes -----------------------------------------------------------------------------
@@ -71,7 +72,7 @@ class Built:
             # as that frame's locals, exactly as a class body would.
             exec('f = expose(alias=alias)(f0)', {'expose': cherrypy.expose, 'alias': list(alias), 'f0': f}, ns)
             ns.pop('f', None)
-            if mark is not True:
+            if mark is not True and mark is not None:
                 f.exposed = mark
         elif mark is True:
             cherrypy.expose(f)
@@ -88,6 +89,9 @@ class Built:
             for name, m in nd.get('meth', []):
                 f = self._probe('%d.%s' % (i, name))
                 self._expose(f, m.get('exp'), m.get('alias'), ns)
+                if m.get('alias') or m.get('exp') is True:
+                    self.exposed_by_decorator.append((i, name, list(m.get('alias') or []), f,
+                                                      m.get('exp') is True or m.get('exp') is None))
                 if m.get('conf') is not None:
                     f._cp_config = dict(m['conf'])
                 ns[name] = f
@@ -254,26 +258,35 @@ class View:
     def visit(self, o, depth):
         k = self.key(o)
         if k in self.ids:
-            return self.ids[k]
+            nid = self.ids[k]
+            if depth < self.depth[nid]:
+                # reached again on a shorter route: explore again with the larger remaining depth
+                self.depth[nid] = depth
+                self.queue.append(nid)
+            return nid
         nid = len(self.objs)
         self.ids[k] = nid
         self.objs.append(o)
+        self.nodes.append(None)
         self.keep.append(o)
         s = getattr(o, '__self__', None)
         if s is not None:
             self.keep.append(s)
         self.depth.append(depth)
+        self.queue.append(nid)
         return nid
 
     def _run(self):
+        import collections
+        self.queue = collections.deque()
         self.visit(self.built.root, 0)
         # attributes of the None object (getattr(None, name, None) is what the walk does after a miss)
         for name in self.alphabet:
             v = getattr(None, name, None)
             if v is not None:
                 self.none_attrs.append((name, self.visit(v, 1)))
-        i = 0
-        while i < len(self.objs):
+        while self.queue:
+            i = self.queue.popleft()
             o, d = self.objs[i], self.depth[i]
             node = {'attrs': [], 'disp': '-'}
             try:
@@ -292,7 +305,9 @@ class View:
             f = getattr(o, '__func__', o)
             desc = self.built.disp.get(id(f))
             if desc is not None:
-                node['disp'] = self._disp(o, f, desc, d)
+                # a dispatcher hop consumes a segment like an attribute step does: its targets sit one
+                # level below the object that owns the dispatcher
+                node['disp'] = self._disp(o, f, desc, max(d - 1, 0))
             if d < self.maxdepth:
                 for name in self.alphabet:
                     try:
@@ -301,8 +316,7 @@ class View:
                         raise common.HarnessError('getattr(%r, %r) raised' % (o, name))
                     if v is not None:
                         node['attrs'].append((name, self.visit(v, d + 1)))
-            self.nodes.append(node)
-            i += 1
+            self.nodes[i] = node
         self.pid = {}
         for nid, o in enumerate(self.objs):
             p = getattr(o, '_pid', None)
@@ -383,6 +397,14 @@ def alphabet_for(paths, methods=(), extra=()):
 # ------------------------------------------------------------------------------------------------
 # in-process request
 # ------------------------------------------------------------------------------------------------
+class NoAnswer(BaseException):
+    """The request did not finish within the guard time (BaseException: nothing in cherrypy swallows it)."""
+
+
+def _alarm(signum, frame):
+    raise NoAnswer()
+
+
 class Runner:
     """One mounted `cherrypy.Application` for a built tree; `get()` sends one request through WSGI."""
 
@@ -424,12 +446,26 @@ class Runner:
         def start_response(status, headers, exc_info=None):
             got['status'] = status
             got['headers'] = headers
-        res = self.app(environ, start_response)
+        import signal
+        # CPU time of this process, so a loaded machine cannot fake a hang
+        old = signal.signal(signal.SIGVTALRM, _alarm)
+        signal.setitimer(signal.ITIMER_VIRTUAL, 4.0)
         try:
-            body = b''.join(res)
-        finally:
-            if hasattr(res, 'close'):
-                res.close()
+            try:
+                res = self.app(environ, start_response)
+                try:
+                    body = b''.join(res)
+                finally:
+                    if hasattr(res, 'close'):
+                        res.close()
+            finally:
+                signal.setitimer(signal.ITIMER_VIRTUAL, 0)
+                signal.signal(signal.SIGVTALRM, old)
+        except NoAnswer:
+            import gc
+            gc.collect()
+            return {'status': 0, 'ran': [[p, a] for p, a, kw in self.built.journal], 'allow': None,
+                    'path_info': self.seen_path[0] if self.seen_path else None, 'body': b'', 'hang': True}
         allow = None
         for k, v in got.get('headers', []):
             if k.lower() == 'allow':
